@@ -47,7 +47,9 @@ for _pid, _txt in {
            "qualified, inside collections / tuples / nested calls), EXECUTE and BATCH with prepared children in every position, graph requests as traversal "
            "text, as CQL text and as EXECUTE of an idempotent prepared statement; connections closed by the proxy itself with requests outstanding",
     "C05": "the retry decision table (Decide) and the traversal rules are checked by TLC (EachHostOnce, AttemptsBounded, SucceedsIfSomeHostOk, NoHostsIffAllTried, "
-           "ReturnsFirstFinal, termination under fairness); every terminal attempt history is replayed and the real attempt sequence/reply must be the prescribed one",
+           "ReturnsFirstFinal, termination under fairness); every terminal attempt history is replayed and the real attempt sequence/reply must be the prescribed one; "
+           "error frames dressed with compression or warnings; a pool with one slot empty (a 'no connection for the host' failure is justified only when none of the "
+           "host's connections was usable); connections the proxy gives up itself (only what the client is told is judged there)",
     "C08": "the prepare path of RequestObs (UNPREPARED -> re-prepare on the same connection -> re-execute on the same host; failed re-prepare -> next "
            "host; NeverUnpreparedWhileCached) checked by TLC; scenario families against the real proxy: hosts that never saw the PREPARE, scripted "
            "UNPREPARED with re-prepare ok/error/connection loss, node restarts, a node joining after start-up, lz4 and snappy sessions, batches with "
@@ -204,7 +206,8 @@ CHECKS["C03"] = dict(
     technique="TLA+ Wire.tla (Transparent / ReplyTransparent) model-checked with TLC; exported REQ/RESP tables replayed end-to-end by vdrv-wire; identity oracle",
     text="every TLC-enumerated request shape (opcode x statement class x max-version x version x flag subsets x none/lz4/snappy x compressed) and response "
          "shape (every RESULT kind, every error code, flag subsets, compressed or not) is sent through the real proxy with seeded contents up to 8 MiB; "
-         "header version/flags/opcode/length and wire body are compared byte by byte in both directions",
+         "header version/flags/opcode/length and wire body are compared byte by byte in both directions; every fourth frame travels in two TCP segments cut inside its "
+         "header; in the burst stage a client connection that the proxy closes is a violation",
     note="two-node fake backend with reference codecs; responses absorbed by the retry policy are not observable (is_bootstrapping never; "
          "server/overloaded/truncate only for non-idempotent requests); contents random below the abstract row; no v5 segment framing",
     design="§6 C03")
